@@ -20,8 +20,10 @@ CONSTANT Tier
 
 \* keys: A, B (EC, kid = name) and N (EC, published WITHOUT a key id); X is never published
 \* E: an RSA ENCRYPTION key (use = enc) that is published under the same key id as the signing key A - never a candidate for signatures
+\* U: a JWKS member of a key type the library does not know ("kty":"PQ-XYZ", key id "U"): skipped, like every member that does not
+\* parse - whatever is listed after it is still there
 KidOfKey(k) == IF k = "N" THEN "" ELSE IF k = "E" THEN "A" ELSE k
-PubSetsE  == {<<"E", "A">>, <<"A", "E">>, <<"E", "A", "B">>, <<"E">>, <<"A">>}
+PubSetsE  == {<<"E", "A">>, <<"A", "E">>, <<"E", "A", "B">>, <<"E">>, <<"A">>, <<"U", "A">>, <<"A", "U", "B">>, <<"U">>}
 PubSetsAB == {<<>>, <<"A">>, <<"B">>, <<"A", "B">>}
 PubSetsN  == PubSetsAB \cup {<<"N">>, <<"A", "N">>, <<"B", "N">>}
 KidForms == {"own", "none", "other"}
@@ -65,7 +67,7 @@ KidOf(s) == CASE s.kid = "own" -> KidOfKey(s.by) [] s.kid = "none" -> "" [] OTHE
 \* oidc.FindMatchingKey over keys of one type with use=sig: exact key-id match, else the only candidate among the kid-less keys
 \* (every key is a candidate for a kid-less token)
 Find(kid, all) ==
-  LET keys == all \ {"E"} IN          \* the use / type filter comes first
+  LET keys == all \ {"E", "U"} IN     \* the use / type filter comes first; members that do not parse are not keys
   IF kid # "" /\ \E k \in keys : KidOfKey(k) = kid THEN CHOOSE k \in keys : KidOfKey(k) = kid
   ELSE LET cand == {k \in keys : KidOfKey(k) = "" \/ kid = ""} IN
        IF Cardinality(cand) = 1 THEN CHOOSE k \in cand : TRUE ELSE "none"
